@@ -85,6 +85,7 @@ type wsrc struct {
 
 type sim struct {
 	r          *rand.Rand
+	wsHold     bool // web seeds wait for their retry timer
 	pieces     []piece.Piece
 	pp         *piecepicker.PiecePicker
 	peers      []*peer.Peer
@@ -236,6 +237,9 @@ func (s *sim) closePD(d *pd) {
 
 func (s *sim) startAll() { // startPieceDownloaders
 	for _, w := range s.shuffledWS() {
+		if s.wsHold {
+			break // the sources are still waiting for their retry timer
+		}
 		if !w.src.Downloading() && !w.src.Disabled {
 			if !s.startWebseed(w) {
 				break
@@ -659,6 +663,7 @@ func runHistory(k int) (fp string, viol []string, lg []string, desc string) {
 		}
 	}()
 	nops := 10 + r.Intn(70)
+	s.wsHold = len(s.ws) > 0 && r.Intn(3) == 0 // web seeds that become usable only later (retry after an error)
 	pt, ok := vx.Try(func() {
 		s.startAll()
 		s.check()
@@ -753,7 +758,15 @@ func runHistory(k int) (fp string, viol []string, lg []string, desc string) {
 				s.disconnect(pe)
 				s.fpKinds["disconnect"] = true
 			default:
-				if len(s.ws) > 0 {
+				if s.wsHold {
+					if r.Intn(2) == 0 {
+						// the web seeds' retry timer fires while peers are already downloading
+						s.wsHold = false
+						s.logf("webseed-retry-timer")
+						s.fpKinds["webseed-late-start"] = true
+						s.startAll()
+					}
+				} else if len(s.ws) > 0 {
 					w := s.ws[r.Intn(len(s.ws))]
 					s.webResult(w, r.Intn(10) == 0)
 				}
